@@ -134,10 +134,28 @@ func c06Run(text string, docs []run.Node, ops []c06Op, loose, multi bool) string
 	return ""
 }
 
+// rooted rewrites an expression that is relative to the current node (@, a
+// field chain, a literal) into one relative to the root node, or returns nil.
+func rooted(e ast.Expr) ast.Expr {
+	c, ok := e.(*ast.Chain)
+	if !ok {
+		return nil
+	}
+	switch c.Head.Kind {
+	case ast.HLiteral:
+		return c
+	case ast.HCurrent:
+		return &ast.Chain{Head: ast.Head{Kind: ast.HRoot}, Steps: c.Steps}
+	case ast.HField:
+		return &ast.Chain{Head: ast.Head{Kind: ast.HRoot}, Steps: append([]ast.Step{{Kind: ast.SField, Name: c.Head.Name}}, c.Steps...)}
+	}
+	return nil
+}
+
 // C06: a compiled expression is a pure, reusable function of the data.
 func TestC06_Reuse(t *testing.T) {
 	c := collector("C06", "reuse")
-	rapid.Check(t, func(t *rapid.T) {
+	check(t, func(t *rapid.T) {
 		ndocs := rapid.IntRange(1, 4).Draw(t, "ndocs")
 		vals := make([]jv.Val, ndocs)
 		docs := make([]run.Node, ndocs)
@@ -154,7 +172,25 @@ func TestC06_Reuse(t *testing.T) {
 			fn := gen.Pick(t, "fn", []string{"sort", "reverse", "to_array", "not_null", "max", "min", "values", "keys", "sum"})
 			// value-preserving wrappers that may hand the caller's own array through
 			for k := rapid.IntRange(0, 2).Draw(t, "nwrap"); k > 0; k-- {
-				switch rapid.IntRange(0, 7).Draw(t, "wrapper") {
+				switch rapid.IntRange(0, 15).Draw(t, "wrapper") {
+				case 8, 9: // selectors continuing a slice of a string: not a projection, the value passes through
+					if r := rooted(arg); r != nil {
+						sl := gen.Pick(t, "strslice", []ast.Step{{Kind: ast.SSlice, Stop: ast.I64(1)}, {Kind: ast.SSlice, Start: ast.I64(0), Stop: ast.I64(2)}, {Kind: ast.SSlice, Stride: ast.I64(2)}, {Kind: ast.SSlice, Stride: ast.I64(-1)}})
+						pass := gen.Pick(t, "passfn", []string{"to_array", "not_null"})
+						arg = ast.RawS("ab").With(sl, ast.Step{Kind: ast.SCall, Name: pass, Args: []ast.Arg{ast.A(r)}})
+					}
+				case 10:
+					arg = (&ast.Chain{Head: ast.Head{Kind: ast.HMultiHash, Keys: []string{"k"}, Items: []ast.Expr{arg}}}).With(ast.Step{Kind: ast.SField, Name: "k"})
+				case 11:
+					arg = (&ast.Chain{Head: ast.Head{Kind: ast.HMultiList, Items: []ast.Expr{ast.Lit(jv.VInt(0)), arg}}}).With(ast.Step{Kind: ast.SIndex, Index: 1})
+				case 12:
+					arg = ast.Call("values", ast.A(&ast.Chain{Head: ast.Head{Kind: ast.HMultiHash, Keys: []string{"k"}, Items: []ast.Expr{arg}}})).With(ast.Step{Kind: ast.SIndex, Index: 0})
+				case 13:
+					arg = ast.Call("map", ast.Ref(ast.Cur()), ast.A(&ast.Chain{Head: ast.Head{Kind: ast.HMultiList, Items: []ast.Expr{arg}}})).With(ast.Step{Kind: ast.SIndex, Index: 0})
+				case 14:
+					arg = ast.Call("reverse", ast.A(&ast.Chain{Head: ast.Head{Kind: ast.HMultiList, Items: []ast.Expr{arg, ast.Lit(jv.VNull())}}})).With(ast.Step{Kind: ast.SIndex, Index: -1})
+				case 15:
+					arg = ast.Call("merge", ast.A(&ast.Chain{Head: ast.Head{Kind: ast.HMultiHash, Keys: []string{"k"}, Items: []ast.Expr{arg}}}), ast.A(ast.Lit(jv.VObj(nil)))).With(ast.Step{Kind: ast.SField, Name: "k"})
 				case 0:
 					arg = ast.Call("to_array", ast.A(arg))
 				case 1:
